@@ -4,9 +4,11 @@ package harness
 import (
 	_ "verif/sim/props/c02"
 	_ "verif/sim/props/c03"
+	_ "verif/sim/props/c04"
 	_ "verif/sim/props/c05"
 	_ "verif/sim/props/c06"
 	_ "verif/sim/props/c08"
+	_ "verif/sim/props/c11"
 	_ "verif/sim/props/c19"
 	_ "verif/sim/props/c20"
 )
